@@ -1,7 +1,440 @@
-(* C10 - parsers are total; placeholder until the totality theorems are collected. *)
-From WP Require Import Base.Prelude Model.Cbor.
+(* C10 - every parser of external data is total and does not trust declared sizes.
+                                                                           [PARTIAL]
+   "Every entry point that parses externally supplied data - bundle reader,
+   signed-exchange reader and verifier, cert-chain reader, bundle-signature
+   verifier, structured-header parsers, MI decoder, CBOR decoder,
+   integrity-block detection - terminates on every input with either a value or
+   an error: no panic, no unbounded loop, and memory bounded by a constant plus a
+   small multiple of the input size (declared lengths and counts are never
+   trusted for allocation or iteration)."
+
+   Reading.  The models return [R A] = Ok a | Err | Panic | Fuel, where [Panic]
+   stands for a Go run-time panic (explicit panic, index / slice out of range,
+   nil dereference, division by zero) and [Fuel] for a loop that was still
+   running when its fuel ran out, i.e. non-termination.  So the first half of
+   the claim is, for every entry point P and EVERY input,
+        total (P input)   :=   P input <> Panic /\ P input <> Fuel.
+   (Every loop of the models gets fuel 1 + |remaining input| or a bound computed
+   from already-validated data; "never Fuel" therefore says: each iteration
+   consumes input or stops, whatever COUNT the input announces.)
+
+   PROVED (all inputs; the only premise anywhere is |file| < 2^64 for the
+   bundle reader, which every Go []byte satisfies and which is really needed,
+   C05 size_condition_needed):
+     1. totality of every entry point (section 1);
+     2. what a parser returns is made of bytes it consumed - strings, URL,
+        signature header, payload, certificates, decoded MI output are bounded
+        by the input length, announced lengths notwithstanding; the MI record
+        buffer is bounded by the caller's limit (section 2).
+   REFUTED (section 3, known finding K1): for the bundle reader "memory is a
+   small multiple of the input" is false - index entries may share a response
+   and each gets its own copy: [bundle_read_amplifies_refuted].
+   NOT PROVED: the behaviour of the real Go allocator (peak heap, transient
+   buffers such as bytes.Buffer growth inside io.CopyN).  That is measured by
+   the correspondence harness (mem/totality cases), not derivable from a
+   functional model.  Hence PARTIAL.
+
+   Statements only.  Proofs: Proofs/Totality{Base,Mice,BundleSig,Size,Amplify,All}.v
+   (new) on top of Proofs/CborDecode.v (C12), SHRoundtrip.v (C16), CertChainRead.v
+   (C17), SxgRoundtrip.v / SxgSign.v (C02, C08), BundleRead*.v (C05),
+   IntegrityBlockSign.v (C07). *)
+From Coq Require Import Lia.
+From WP Require Import Base.Prelude Base.Sha256.
+From WP Require Import Model.Cbor Model.Http Model.StructHdr Model.Mice Model.CertChain Model.Sxg
+  Model.Bundle Model.BundleSig Model.IntegrityBlock.
+From WP Require Import Proofs.CborDecode Proofs.TotalityBase Proofs.TotalityMice
+  Proofs.TotalityBundleSig Proofs.TotalitySize Proofs.TotalityAmplify Proofs.TotalityAll.
+From WP Require Proofs.MiceCommit.
 Open Scope N_scope.
 
-Theorem c10_smoke : decode_bytes [91; 255; 255; 255; 255; 255; 255; 255; 255; 1] = Err.
-Proof. reflexivity. Qed.
-Print Assumptions c10_smoke.
+Theorem total_def : forall (A : Type) (r : R A), total r <-> (r <> Panic /\ r <> Fuel).
+Proof. intros A r. reflexivity. Qed.
+
+(* ================================================================================== *)
+(* 1. totality, entry point by entry point                                            *)
+(* ================================================================================== *)
+
+(* ---- CBOR decoder (C12) ------------------------------------------------------------ *)
+Theorem cbor_decode_total : forall bs : bytes,
+  total (decode_uint bs) /\ total (decode_array_header bs) /\ total (decode_map_header bs) /\
+  total (decode_bytes bs) /\ total (decode_text bs).
+Proof. exact TotalityAll.cbor_decode_total. Qed.
+Print Assumptions cbor_decode_total.
+
+(* ---- structured headers (C16) ------------------------------------------------------- *)
+Theorem parse_parameterised_list_total : forall s : bytes, total (parse_parameterised_list s).
+Proof. exact TotalityAll.parse_parameterised_list_total. Qed.
+Print Assumptions parse_parameterised_list_total.
+
+Theorem parse_list_of_lists_total : forall s : bytes, total (parse_list_of_lists s).
+Proof. exact TotalityAll.parse_list_of_lists_total. Qed.
+Print Assumptions parse_list_of_lists_total.
+
+(* ---- MI decoder ------------------------------------------------------------------------ *)
+Theorem parse_digest_header_total : forall (d : draft) (v : bytes), total (parse_digest_header d v).
+Proof. exact TotalityMice.parse_digest_header_total. Qed.
+Print Assumptions parse_digest_header_total.
+
+Theorem new_decoder_total : forall (H : bytes -> bytes) (d : draft) (stream digest : bytes) (maxrs : N),
+  total (new_decoder H d stream digest maxrs).
+Proof. exact TotalityMice.new_decoder_total. Qed.
+Print Assumptions new_decoder_total.
+
+(* Read is a total function (dec -> N -> dec * bytes * rstat); NewDecoder + a
+   ReadAll loop is [decode_all] *)
+Theorem decode_all_total : forall (H : bytes -> bytes) (d : draft) (stream digest : bytes) (maxrs k : N),
+  total (decode_all H d stream digest maxrs k).
+Proof. exact TotalityMice.decode_all_total. Qed.
+Print Assumptions decode_all_total.
+
+(* the loop stops BY ITSELF (EOF or error) before the fuel S (S (length stream))
+   is used up, for every buffer size k >= 1: status ROk ("fuel ran out while
+   reads were still succeeding") is impossible *)
+Theorem decode_all_loop_terminates :
+  forall (H : bytes -> bytes) (d : draft) (stream digest : bytes) (maxrs k : N) (out : bytes) (st : rstat),
+  1 <= k -> decode_all H d stream digest maxrs k = Ok (out, st) -> st = REOF \/ st = RErr.
+Proof. exact TotalityMice.decode_all_loop_terminates. Qed.
+Print Assumptions decode_all_loop_terminates.
+
+(* the reason: a successful Read into a non-empty buffer strictly decreases
+   [measure] = |pending output| + |unread stream| + [proof still expected] *)
+Theorem mi_read_progress :
+  forall (H : bytes -> bytes) (s : dec) (k : N) (s' : dec) (o : bytes) (st : rstat),
+  Mice.read H s k = (s', o, st) ->
+  lenN o + held s' <= held s /\ (1 <= k -> st = ROk -> measure s' < measure s).
+Proof. exact TotalityMice.read_measure. Qed.
+Print Assumptions mi_read_progress.
+
+Theorem read_all_loop_terminates :
+  forall (H : bytes -> bytes) (f : nat) (s : dec) (k : N) (acc out : bytes) (st : rstat),
+  1 <= k -> measure s < N.of_nat f -> read_all H f s k acc = (out, st) -> st = REOF \/ st = RErr.
+Proof. exact TotalityMice.read_all_loop_terminates. Qed.
+Print Assumptions read_all_loop_terminates.
+
+(* ---- certificate chain reader (C17) --------------------------------------------------- *)
+Theorem cc_read_total : forall (x509_ok : bytes -> bool) (bs : bytes), total (cc_read x509_ok bs).
+Proof. exact TotalityAll.cc_read_total. Qed.
+Print Assumptions cc_read_total.
+
+(* ---- signed-exchange reader (C02) ------------------------------------------------------ *)
+Theorem sxg_read_total : forall bs : bytes, total (Sxg.read bs).
+Proof. exact TotalityAll.sxg_read_total. Qed.
+Print Assumptions sxg_read_total.
+
+Theorem sxg_read_prologue_total : forall bs : bytes, total (read_prologue bs).
+Proof. exact TotalityAll.sxg_read_prologue_total. Qed.
+Print Assumptions sxg_read_prologue_total.
+
+(* ---- signed-exchange verifier ------------------------------------------------------------ *)
+(* [verify] returns a [verdict] (Valid / Invalid / Undecided): it cannot be
+   Panic or Fuel by its type.  The model maps any non-Ok result of the calls
+   below to "this signature does not verify"; none of them can in fact be a
+   panic or a non-terminating loop: *)
+Theorem sxg_verify_calls_total :
+  forall (H256 : bytes -> bytes) (x509_ok : bytes -> bool) (e : exchange)
+         (cert : option bytes) (validity : bytes) (date expires : Z) (chain digest : bytes),
+  total (parse_parameterised_list (e_sig e)) /\
+  total (signed_message e cert validity date expires) /\
+  total (cc_read x509_ok chain) /\
+  total (decode_all H256 (mice_of (e_ver e)) (e_payload e) digest 16384 512).
+Proof. exact TotalityAll.sxg_verify_calls_total. Qed.
+Print Assumptions sxg_verify_calls_total.
+
+(* ---- bundle reader (C05) ------------------------------------------------------------------ *)
+Theorem b_read_total : forall (x509_ok : bytes -> bool) (bs : bytes),
+  lenN bs < two64 -> total (b_read x509_ok bs).
+Proof. exact TotalityAll.b_read_total. Qed.
+Print Assumptions b_read_total.
+
+Theorem load_response_total : forall item : bytes, total (load_response item).
+Proof. exact TotalityAll.load_response_total. Qed.
+Print Assumptions load_response_total.
+
+Theorem parse_signatures_total : forall (x509_ok : bytes -> bool) (bs : bytes),
+  total (parse_signatures x509_ok bs).
+Proof. exact TotalityAll.parse_signatures_total. Qed.
+Print Assumptions parse_signatures_total.
+
+(* ---- bundle signatures --------------------------------------------------------------------- *)
+Theorem decode_signed_subset_total : forall signed : bytes, total (decode_signed_subset signed).
+Proof. exact TotalityBundleSig.decode_signed_subset_total. Qed.
+Print Assumptions decode_signed_subset_total.
+
+(* fuel sufficiency of its three loops: more fuel than input bytes is enough,
+   for ANY declared count n / k *)
+Theorem subset_loops_terminate : forall (fuel : nat) (n : N) (bs : bytes),
+  (List.length bs < fuel)%nat ->
+  (forall a, ok_or_err (dec_subset_fields fuel n bs a)) /\
+  (forall acc, ok_or_err (dec_subset_hashes fuel n bs acc)) /\
+  (forall acc, ok_or_err (dec_hash_pairs fuel n bs acc)).
+Proof.
+  intros fuel n bs Hf.
+  exact (conj (fun a => dec_subset_fields_total fuel n bs a Hf)
+        (conj (fun acc => dec_subset_hashes_total fuel n bs acc Hf)
+              (fun acc => dec_hash_pairs_total fuel n bs acc Hf))).
+Qed.
+Print Assumptions subset_loops_terminate.
+
+(* auths[authority] after "authority >= len(auths) -> error" cannot panic *)
+Theorem verify_vouched_index_in_range : forall (v : vouched) (auths : list augcert),
+  (lenN auths <=? vs_authority v) = false ->
+  nth_error auths (N.to_nat (vs_authority v)) <> None.
+Proof. exact TotalityBundleSig.verify_vouched_index_in_range. Qed.
+Print Assumptions verify_vouched_index_in_range.
+
+Theorem verify_vouched_total :
+  forall (H256 : bytes -> bytes) (x509_key : bytes -> option (option N))
+         (sig_ok : N -> bytes -> bytes -> bool) (v : vouched) (auths : list augcert)
+         (tsec tnsec : Z) (ver : bversion),
+  total (verify_vouched H256 x509_key sig_ok v auths tsec tnsec ver).
+Proof. exact TotalityBundleSig.verify_vouched_total. Qed.
+Print Assumptions verify_vouched_total.
+
+Theorem new_verifier_total :
+  forall (H256 : bytes -> bytes) (x509_key : bytes -> option (option N))
+         (sig_ok : N -> bytes -> bytes -> bool) (sigs : signatures) (tsec tnsec : Z) (ver : bversion),
+  total (new_verifier H256 x509_key sig_ok sigs tsec tnsec ver).
+Proof. exact TotalityBundleSig.new_verifier_total. Qed.
+Print Assumptions new_verifier_total.
+
+(* [verify_exchange] returns a [vx_result] (no Panic / Fuel constructor); its
+   two R-valued calls are total *)
+Theorem verify_exchange_calls_total : forall (H256 : bytes -> bytes) (x : bexchange) (dg : bytes),
+  total (header_sha256 H256 x) /\ total (decode_all H256 D03 (bx_body x) dg 16384 512).
+Proof. exact TotalityBundleSig.verify_exchange_calls_total. Qed.
+Print Assumptions verify_exchange_calls_total.
+
+(* ---- integrity-block detection (C07) ------------------------------------------------------ *)
+Theorem obtain_total : forall file : bytes, total (obtain file).
+Proof. exact TotalityAll.obtain_total. Qed.
+Print Assumptions obtain_total.
+
+(* ================================================================================== *)
+(* 2. declared lengths are not trusted: outputs are made of consumed input            *)
+(* ================================================================================== *)
+
+(* a CBOR string comes back only if all its bytes were present: string and
+   remaining input are disjoint parts of the input, after >= 1 head byte *)
+Theorem decode_bytes_size : forall bs s r : bytes,
+  decode_bytes bs = Ok (s, r) -> lenN s + lenN r < lenN bs.
+Proof. exact TotalitySize.decode_bytes_size. Qed.
+Print Assumptions decode_bytes_size.
+
+Theorem decode_text_size : forall bs s r : bytes,
+  decode_text bs = Ok (s, r) -> lenN s + lenN r < lenN bs.
+Proof. exact TotalitySize.decode_text_size. Qed.
+Print Assumptions decode_text_size.
+
+Theorem decode_bytes_segment : forall bs s r : bytes,
+  decode_bytes bs = Ok (s, r) -> exists h, bs = h ++ s ++ r /\ 1 <= lenN h <= 9.
+Proof. exact TotalitySize.decode_bytes_segment. Qed.
+Print Assumptions decode_bytes_segment.
+
+(* array / map headers only return the COUNT (any uint64); every loop over a
+   count is one of the fuel-bounded loops of section 1 *)
+Theorem decode_head_size : forall (t n : N) (bs r : bytes),
+  Spec.Cbor.major_const t -> decode_of_type t bs = Ok (n, r) ->
+  lenN r < lenN bs /\ lenN bs <= lenN r + 9.
+Proof. exact TotalitySize.decode_head_size. Qed.
+Print Assumptions decode_head_size.
+
+(* MI: the record size read from the stream is accepted only up to the
+   caller's limit; the record buffer is that size + 32 *)
+Theorem new_decoder_record_size_bounded :
+  forall (H : bytes -> bytes) (d : draft) (stream digest : bytes) (maxrs : N) (s0 : dec),
+  new_decoder H d stream digest maxrs = Ok s0 -> d_rs s0 <= maxrs.
+Proof. exact TotalityMice.new_decoder_record_size_bounded. Qed.
+Print Assumptions new_decoder_record_size_bounded.
+
+Theorem record_size_refused :
+  forall (H : bytes -> bytes) (d : draft) (s dg : bytes) (maxrs : N) (hd rest : bytes),
+  splitN s 8 = Some (hd, rest) -> (unbe hd = 0 \/ maxrs < unbe hd) ->
+  new_decoder H d s dg maxrs = Err.
+Proof. exact MiceCommit.record_size_refused. Qed.
+Print Assumptions record_size_refused.
+
+(* MI: everything delivered is at most as long as the stream *)
+Theorem decode_all_output_bounded :
+  forall (H : bytes -> bytes) (d : draft) (stream digest : bytes) (maxrs k : N) (out : bytes) (st : rstat),
+  decode_all H d stream digest maxrs k = Ok (out, st) -> lenN out <= lenN stream.
+Proof. exact TotalityMice.decode_all_output_bounded. Qed.
+Print Assumptions decode_all_output_bounded.
+
+Theorem read_trace_output_bounded :
+  forall (H : bytes -> bytes) (sizes : list N) (s : dec) (acc out : bytes) (st : rstat),
+  read_trace H s sizes acc = (out, st) -> lenN out <= lenN acc + held s.
+Proof. exact TotalityMice.read_trace_output_bounded. Qed.
+Print Assumptions read_trace_output_bounded.
+
+(* signed exchange: URL, Signature header value and payload fit in the file
+   (uriLength, sigLength, headerLength are only ever used to cut the input) *)
+Theorem sxg_read_size : forall (bs : bytes) (e : exchange),
+  Sxg.read bs = Ok e -> lenN (e_uri e) + lenN (e_sig e) + lenN (e_payload e) <= lenN bs.
+Proof. exact TotalitySize.read_size. Qed.
+Print Assumptions sxg_read_size.
+
+(* certificate chain: all DER + OCSP + SCT strings together, and the number of
+   certificates, are below the file size whatever the array / map headers say *)
+Theorem cc_read_size : forall (x509_ok : bytes -> bool) (bs : bytes) (c : list augcert),
+  cc_read x509_ok bs = Ok c -> chain_size c < lenN bs.
+Proof. exact TotalitySize.cc_read_size. Qed.
+Print Assumptions cc_read_size.
+
+Theorem cc_read_count : forall (x509_ok : bytes -> bool) (bs : bytes) (c : list augcert),
+  cc_read x509_ok bs = Ok c -> lenN c < lenN bs.
+Proof. exact TotalitySize.cc_read_count. Qed.
+Print Assumptions cc_read_count.
+
+(* ================================================================================== *)
+(* 3. REFUTED for the bundle reader: output size is not linear in input size (K1)     *)
+(* ================================================================================== *)
+(* [body_bytes b] = total length of the response bodies of b.  Witness
+   [amp_bytes]: a 3390-byte b2 bundle, 60 URLs sharing one 2000-byte response,
+   read back as 60 exchanges with 120000 body bytes. *)
+Theorem bundle_read_amplifies_refuted :
+  exists (bs : bytes) (b : bundle),
+    b_read (fun _ => true) bs = Ok b /\ 20 * lenN bs < body_bytes b.
+Proof. exact TotalityAmplify.bundle_read_amplifies_refuted. Qed.
+Print Assumptions bundle_read_amplifies_refuted.
+
+Theorem bundle_read_amplifies_numbers :
+  exists b : bundle,
+    b_read (fun _ => true) amp_bytes = Ok b /\ lenN amp_bytes = 3390 /\ lenN amp_bytes < two64 /\
+    body_bytes b = 120000 /\ lenN (b_exchanges b) = 60 /\ b_taint b = false.
+Proof. exact TotalityAmplify.bundle_read_amplifies_numbers. Qed.
+Print Assumptions bundle_read_amplifies_numbers.
+
+(* ================================================================================== *)
+(* 4. adversarial inputs: huge declared lengths / counts over short input -> Err      *)
+(* ================================================================================== *)
+Definition max64 : N := 18446744073709551615.
+Definition ff8 : bytes := [255; 255; 255; 255; 255; 255; 255; 255].
+
+(* CBOR: byte / text string of declared length 2^63, 2^64-1, 2^63-1 with 1..3
+   bytes of input; an array head alone just reports its count *)
+Example ex_cbor_huge_lengths :
+  decode_bytes (91 :: be 8 two63 ++ [1; 2; 3]) = Err /\
+  decode_bytes (91 :: ff8 ++ [1]) = Err /\
+  decode_text (123 :: ff8 ++ [1]) = Err /\
+  decode_bytes (91 :: be 8 (two63 - 1) ++ [1]) = Err /\
+  decode_array_header (155 :: ff8) = Ok (max64, []).
+Proof. vm_compute. repeat split. Qed.
+
+(* structured headers: numbers beyond int64, unterminated string / byte sequence *)
+Example ex_sh_adversarial :
+  parse_list_of_lists (s2b "99999999999999999999999999999999") = Err /\
+  parse_parameterised_list (s2b "a;k=9223372036854775808") = Err /\
+  parse_parameterised_list (s2b "a;k=-9223372036854775809") = Err /\
+  parse_list_of_lists (s2b "*AAAA") = Err /\
+  parse_list_of_lists (34 :: repeat 97 50) = Err.
+Proof. vm_compute. repeat split. Qed.
+
+(* MI: record size 2^64-1 / limit+1 / 0 refused; at the limit with a short
+   stream the first Read fails; short prefix; short digest *)
+Definition dg0 : bytes := format_digest_header D03 (be 32 0).
+Example ex_mi_adversarial :
+  decode_all sha256 D03 (ff8 ++ [1; 2; 3]) dg0 16384 512 = Err /\
+  decode_all sha256 D03 (be 8 16385 ++ [1; 2; 3]) dg0 16384 512 = Err /\
+  decode_all sha256 D03 (be 8 0 ++ [1; 2; 3]) dg0 16384 512 = Err /\
+  decode_all sha256 D03 (be 8 16384 ++ [1; 2; 3]) dg0 16384 512 = Ok ([], RErr) /\
+  decode_all sha256 D03 [1; 2; 3] dg0 16384 512 = Err /\
+  parse_digest_header D03 (s2b "mi-sha256-03=AAAA") = Err.
+Proof. vm_compute. repeat split. Qed.
+
+(* hypotheses of the loop theorem on an honest stream (C15's example) *)
+Example ex_mi_terminates :
+  let msg := s2b "When I grow up, I want to be a watermelon" in
+  match encode sha256 D03 16 msg with
+  | Ok (stream, dg) =>
+      match decode_all sha256 D03 stream dg 16384 1 with
+      | Ok (out, REOF) => bytes_eqb out msg
+      | _ => false
+      end
+  | _ => false
+  end = true.
+Proof. vm_compute. reflexivity. Qed.
+
+(* certificate chain: array of 2^64-1 elements, map of 2^64-1 entries, DER of
+   declared length 2^63-1 *)
+Definition der_like (b : bytes) : bool := match b with 48 :: _ => true | _ => false end.
+Definition cc_head : bytes := [103; 240; 159; 147; 156; 226; 155; 147].
+Example ex_cc_huge_counts :
+  cc_read der_like (155 :: ff8 ++ cc_head) = Err /\
+  cc_read der_like (155 :: ff8 ++ cc_head ++ 187 :: ff8) = Err /\
+  cc_read der_like (130 :: cc_head ++ [161; 100; 99; 101; 114; 116] ++ 91 :: be 8 (two63 - 1) ++ [48]) = Err.
+Proof. vm_compute. repeat split. Qed.
+
+(* signed exchange (b3): uriLength 65535, sigLength / headerLength 2^24-1 over an
+   almost empty rest; header map of 2^64-1 entries; header value of length 2^64-1 *)
+Definition sxg_b3 (ulen u sl hl rest : bytes) : bytes := header_magic V1b3 ++ ulen ++ u ++ sl ++ hl ++ rest.
+Definition u14 : bytes := s2b "https://e.com/".
+Example ex_sxg_adversarial :
+  Sxg.read (sxg_b3 [255; 255] u14 [0; 0; 0] [0; 0; 0] []) = Err /\
+  Sxg.read (sxg_b3 [0; 14] u14 [255; 255; 255] [0; 0; 1] [160]) = Err /\
+  Sxg.read (sxg_b3 [0; 14] u14 [0; 0; 0] [255; 255; 255] [160]) = Err /\
+  Sxg.read (sxg_b3 [0; 14] u14 [0; 0; 0] [0; 0; 9] (187 :: ff8)) = Err /\
+  Sxg.read (sxg_b3 [0; 14] u14 [0; 0; 0] [0; 0; 10] (161 :: 91 :: ff8)) = Err /\
+  is_ok (Sxg.read (sxg_b3 [0; 14] u14 [0; 0; 0] [0; 0; 1] [160; 7; 7])) = true.
+Proof. vm_compute. repeat split. Qed.
+
+(* bundle (b2): responses section of declared length 2^64-1 / 2^63; index section
+   of declared length 2^64-1; index map of 2^64-1 entries; a location with
+   offset 2^64-1; section-length table of declared length 2^64-1; table whose
+   array head announces 2^64-1 items *)
+Definition bad_bundle (idx_len resp_len : N) (idx resp : bytes) : bytes :=
+  header_magic_bytes BV2
+  ++ enc_bytes (enc_array_header 4 ++ enc_bytes_of TText (s2b "index") ++ enc_uint idx_len
+                ++ enc_bytes_of TText (s2b "responses") ++ enc_uint resp_len)
+  ++ enc_array_header 2 ++ idx ++ resp ++ enc_bytes (be 8 0).
+Example ex_bundle_adversarial :
+  b_read any_cert (bad_bundle 1 max64 [160] [128]) = Err /\
+  b_read any_cert (bad_bundle 1 two63 [160] [128]) = Err /\
+  b_read any_cert (bad_bundle max64 1 [160] [128]) = Err /\
+  b_read any_cert (bad_bundle 9 1 (187 :: ff8) [128]) = Err /\
+  b_read any_cert (bad_bundle 18 1 (161 :: enc_bytes_of TText (s2b "https://e/") ++ [130; 27] ++ ff8 ++ [0]) [128]) = Err /\
+  b_read any_cert (header_magic_bytes BV2 ++ 91 :: ff8) = Err /\
+  b_read any_cert (header_magic_bytes BV2 ++ enc_bytes (155 :: ff8) ++ [130]) = Err /\
+  (* the same skeleton with honest numbers is a valid (empty) bundle *)
+  match b_read any_cert (bad_bundle 1 1 [160] [128]) with Ok b => Some (b_exchanges b) | _ => None end
+  = Some [] /\
+  lenN (bad_bundle 1 max64 [160] [128]) < two64.
+Proof. vm_compute. repeat split. Qed.
+
+(* bundle signatures: map of 2^64-1 fields; subset-hashes of 2^64-1 URLs; a URL
+   with 2^64-1 hash items; auth-sha256 of declared length 2^63-1; authority
+   index 2^64-1 and 1 with one certificate *)
+Definition one_auth : list augcert := [{| ac_cert := [48]; ac_ocsp := None; ac_sct := None |}].
+Example ex_bundle_sig_adversarial :
+  decode_signed_subset (187 :: ff8) = Err /\
+  decode_signed_subset (161 :: enc_bytes_of TText (s2b "subset-hashes") ++ 187 :: ff8) = Err /\
+  decode_signed_subset (161 :: enc_bytes_of TText (s2b "subset-hashes") ++ [161]
+                        ++ enc_bytes_of TText (s2b "u") ++ 155 :: ff8 ++ [64]) = Err /\
+  decode_signed_subset (161 :: enc_bytes_of TText (s2b "auth-sha256") ++ 91 :: be 8 (two63 - 1)) = Err /\
+  verify_vouched sha256 (fun _ => Some (Some 1)) (fun _ _ _ => true)
+    {| vs_authority := max64; vs_sig := []; vs_signed := [] |} one_auth 0 0 BV2 = Err /\
+  verify_vouched sha256 (fun _ => Some (Some 1)) (fun _ _ _ => true)
+    {| vs_authority := 1; vs_sig := []; vs_signed := [] |} one_auth 0 0 BV2 = Err /\
+  verify_vouched sha256 (fun _ => Some (Some 1)) (fun _ _ _ => true)
+    {| vs_authority := 0; vs_sig := []; vs_signed := 187 :: ff8 |} one_auth 0 0 BV2 = Err.
+Proof. vm_compute. repeat split. Qed.
+
+(* integrity block: trailing length 2^64-1 (int64 -1), 2^63 (MinInt64), 8-byte file *)
+Example ex_obtain_adversarial :
+  obtain (map N.of_nat (seq 200 24) ++ ff8) = Err /\
+  obtain (map N.of_nat (seq 200 24) ++ be 8 two63) = Err /\
+  obtain ff8 = Err.
+Proof. vm_compute. repeat split. Qed.
+
+(* the size theorems have satisfiable hypotheses *)
+Example ex_size_hyps :
+  decode_bytes [67; 1; 2; 3; 9] = Ok ([1; 2; 3], [9]) /\
+  (exists e, Sxg.read (sxg_b3 [0; 14] u14 [0; 0; 0] [0; 0; 1] [160; 7; 7]) = Ok e /\
+             e_uri e = u14 /\ e_payload e = [7; 7]) /\
+  cc_read der_like (130 :: cc_head ++ [162; 100; 99; 101; 114; 116; 66; 48; 0; 100; 111; 99; 115; 112; 65; 9])
+  = Ok [{| ac_cert := [48; 0]; ac_ocsp := Some [9]; ac_sct := None |}].
+Proof.
+  split; [vm_compute; reflexivity|]. split; [|vm_compute; reflexivity].
+  destruct (Sxg.read (sxg_b3 [0; 14] u14 [0; 0; 0] [0; 0; 1] [160; 7; 7])) as [e| | |] eqn:E;
+    try (vm_compute in E; discriminate E).
+  exists e. split; [reflexivity|]. vm_compute in E. inversion E; subst e. split; reflexivity.
+Qed.
